@@ -169,6 +169,88 @@ Proof.
     + apply IH; assumption.
 Qed.
 
+(* ---------- progress: the protocol cannot get stuck ---------- *)
+
+(* the work left for thread u: 4 micro-steps per outstanding call, minus those done of the current one *)
+Definition work (s : rstate) (u : nat) : nat := 4 * length (rt_todo (r_thr s u)) - rt_pc (r_thr s u).
+
+Definition RInv2 (s : rstate) : Prop :=
+  RInv s /\
+  (forall h, r_lock s = Some h -> rt_pc (r_thr s h) <> 0) /\
+  (forall u, rt_pc (r_thr s u) <> 0 -> rt_todo (r_thr s u) <> []) /\
+  (forall u, rt_pc (r_thr s u) <= 3).
+
+Lemma RInv2_init todos : RInv2 (rinit todos).
+Proof.
+  split; [apply RInv_init|]. unfold rinit; simpl. repeat split; intros; try discriminate; try congruence; lia.
+Qed.
+
+Lemma RInv2_step s t : RInv2 s -> RInv2 (rstep true s t).
+Proof.
+  intros (I & J1 & J2 & J3). split; [apply RInv_step; exact I|].
+  destruct I as (_ & I2 & _ & I4 & _).
+  unfold rstep. destruct (rt_todo (r_thr s t)) as [|k rest] eqn:Etodo.
+  { repeat split; assumption. }
+  destruct (rt_pc (r_thr s t)) as [|[|[|p]]] eqn:Epc.
+  - destruct (r_lock s) as [h|] eqn:El.
+    { rewrite El. repeat split; assumption. }
+    simpl. repeat split.
+    + intros h H. inversion H; subst h. unfold rupd. rewrite Nat.eqb_refl. simpl. lia.
+    + intros u. upd_case t u E; [intros _; rewrite ?Etodo; discriminate | apply J2].
+    + intros u. upd_case t u E; [lia | apply J3].
+  - simpl. repeat split.
+    + intros h H. upd_case t h E; [lia | apply J1; exact H].
+    + intros u. upd_case t u E; [intros _; rewrite ?Etodo; discriminate | apply J2].
+    + intros u. upd_case t u E; [lia | apply J3].
+  - destruct (rt_local (r_thr s t)) as [c|]; simpl; repeat split.
+    + intros h H. upd_case t h E; [lia | apply J1; exact H].
+    + intros u. upd_case t u E; [intros _; rewrite ?Etodo; discriminate | apply J2].
+    + intros u. upd_case t u E; [lia | apply J3].
+    + intros h H. upd_case t h E; [lia | apply J1; exact H].
+    + intros u. upd_case t u E; [intros _; rewrite ?Etodo; discriminate | apply J2].
+    + intros u. upd_case t u E; [lia | apply J3].
+  - destruct (rt_local (r_thr s t)) as [c|]; [|repeat split; assumption].
+    simpl. repeat split.
+    + intros h H. discriminate.
+    + intros u. upd_case t u E; [intros H; congruence | apply J2].
+    + intros u. upd_case t u E; [lia | apply J3].
+Qed.
+
+Lemma RInv2_run sched : forall s, RInv2 s -> RInv2 (rrun true s sched).
+Proof.
+  unfold rrun. induction sched as [|t r IH]; intros s H; simpl; [exact H|].
+  apply IH. apply RInv2_step. exact H.
+Qed.
+
+(* In every reachable state in which some call is outstanding there is a thread whose next
+   step makes progress (the holder of the mutex if it is taken, any thread otherwise): no
+   deadlock; with a fair scheduler every accessor call returns. *)
+Theorem registry_progress (todos : list (list nat)) (sched : list nat) :
+  let s := rrun true (rinit todos) sched in
+  (exists t, rt_todo (r_thr s t) <> []) ->
+  exists u, work (rstep true s u) u < work s u.
+Proof.
+  intros s [t Ht].
+  destruct (RInv2_run sched _ (RInv2_init todos)) as (I & J1 & J2 & J3). fold s in I, J1, J2, J3.
+  destruct I as (_ & I2 & _ & I4 & _).
+  assert (P : forall u, rt_todo (r_thr s u) <> [] -> (r_lock s = None \/ r_lock s = Some u) ->
+                        work (rstep true s u) u < work s u).
+  { intros u Hu Hl. unfold work, rstep.
+    destruct (rt_todo (r_thr s u)) as [|k rest] eqn:Etodo; [congruence|].
+    pose proof (J3 u) as B.
+    destruct (rt_pc (r_thr s u)) as [|[|[|p]]] eqn:Epc.
+    - destruct Hl as [Hl|Hl].
+      + rewrite Hl. simpl. unfold rupd. rewrite Nat.eqb_refl. simpl. rewrite ?Etodo. simpl. lia.
+      + exfalso. apply (J1 u Hl). exact Epc.
+    - simpl. unfold rupd. rewrite Nat.eqb_refl. simpl. rewrite ?Etodo. simpl. lia.
+    - destruct (rt_local (r_thr s u)); simpl; unfold rupd; rewrite Nat.eqb_refl; simpl; rewrite ?Etodo; simpl; lia.
+    - destruct (I4 u k rest ltac:(lia) Etodo) as [c [Hc _]]. rewrite Hc.
+      simpl. unfold rupd. rewrite Nat.eqb_refl. simpl. lia. }
+  destruct (r_lock s) as [h|] eqn:El.
+  - exists h. apply P; [apply J2; apply J1; reflexivity | right; reflexivity].
+  - exists t. apply P; [exact Ht | left; reflexivity].
+Qed.
+
 (* non-vacuity: three threads, first use of keys 7 and 8 from all of them at once; a
    round-robin schedule finishes every call and every thread got the one class per key *)
 Example registry_run_example :
